@@ -4,6 +4,7 @@ against the documented closed form `x·y/(y − ask/(1−c)) − x`).  The forwa
 (simulation = execution) and the router folds are world-level theorems (Halo/Props/C12W.lean).
 -/
 import Halo.Proofs.C12
+import Halo.Proofs.C12M
 
 namespace Halo.Props.C12
 open Halo
@@ -32,6 +33,16 @@ theorem reverse_commission {x y b c o s k : Nat}
     (h : computeOfferAmount x y b c = .ok (o, s, k)) :
     k = b * (E * E / (E - c)) / E * c / E :=
   Halo.C12.reverse_commission h
+
+/-- the reverse quote is monotone: asking for more never quotes a smaller required offer -/
+theorem reverse_mono_ask {x y b b' c o s k o' s' k' : Nat}
+    (h : computeOfferAmount x y b c = .ok (o, s, k))
+    (h' : computeOfferAmount x y b' c = .ok (o', s', k')) (hb : b ≤ b') : o ≤ o' :=
+  Halo.C12.reverse_mono_ask h h' hb
+
+/-- non-vacuity of `reverse_mono_ask`, strictly -/
+example : computeOfferAmount 1000000 2000000 1993 3000000000000000 = .ok (999, 0, 5) ∧
+    computeOfferAmount 1000000 2000000 2989 3000000000000000 = .ok (1500, 3, 8) := by decide
 
 example : computeOfferAmount 1000000 2000000 1993 3000000000000000 = .ok (999, 0, 5) ∧
     Spec.c12Domain 2000000 1993 3000000000000000 = true ∧
